@@ -5,5 +5,5 @@ for d in /tmp/wt5/C*/_out/m*; do
   [ -f "$d/patch.diff" ] && [ -f "$d/demo.py" ] && [ -f "$d/notes.md" ] || continue
   p=$(echo "$d" | sed -E 's#/tmp/wt5/(C[0-9]+)/_out/.*#\1#'); n=r5$(basename "$d")
   [ -f "seeded/$p-$n/meta.json" ] && continue
-  echo "=== $p $n"; /venv/bin/python tools/seedtest.py "$p" "$d" --name "$n" 2>&1 | tail -4
+  echo "=== $p $n"; /venv/bin/python tools/seedtest.py "$p" "$d" --name "$n" $SEEDTEST_OPTS 2>&1 | tail -4
 done
